@@ -263,6 +263,10 @@ def classify(check, linemap, crate_src_dir, extracted_lines):
         # core's slice range panic (runtime-formatted message): a real panic reached from the code under test
         d.update(kind='model-panic-standing-for-real-panic', attributed=True, text='panic: slice index / range out of bounds (core::slice::index, reached from the extracted text)',
                  where='%s:%s' % (base, check.line)); return d
+    if re.search(r'core/src/result\.rs$', f) and 'placeholder message' in desc:
+        # Result::unwrap / expect on an Err (runtime-formatted message): a real panic reached from the code under test
+        d.update(kind='model-panic-standing-for-real-panic', attributed=True, text='panic: Result::unwrap / expect on an Err value (core::result::unwrap_failed, reached from the extracted text)',
+                 where='%s:%s' % (base, check.line)); return d
     for pat in DELIBERATE_PANICS:
         if re.search(pat, desc):
             d.update(kind='model-panic-standing-for-real-panic', attributed=True, text='panic: %s (in %s)' % (desc, check.func or base),
